@@ -163,7 +163,8 @@ public:
    DynamicBitsetIterator( T* dbs, ssize_t startpos):
       DynamicBitsetIteratorBase< T>( dbs, startpos)
    {
-      if (!mpDynBitset->test( mCurrPos))
+      if ((static_cast< size_t>( mCurrPos) < mpDynBitset->size())
+          && !mpDynBitset->test( mCurrPos))
          forward();
    } // DynamicBitsetIterator< T>::DynamicBitsetIterator
 
@@ -275,7 +276,7 @@ public:
    DynamicBitsetReverseIterator( T* dbs, ssize_t startpos):
       DynamicBitsetIteratorBase< T>( dbs, startpos)
    {
-      if (!mpDynBitset->test( mCurrPos))
+      if ((mCurrPos >= 0) && !mpDynBitset->test( mCurrPos))
          reverse();
    } // DynamicBitsetIterator< T>::DynamicBitsetIterator
 
